@@ -710,8 +710,11 @@ class MethodRowsSuite:
                 if rng.random() < 0.3:
                     pending = None   # (the reference tracks the truth; this only thins the calls)
             if self.with_reset:
+                # stop the first touch anywhere (also in the middle of a multi-change call), then
+                # ring a second touch that makes calls of its own at the same kind of positions
                 cut = rng.randrange(1, len(ops))
-                ops = ops[:cut] + ["reset"] + [o for o in ops if o in ("H", "B")][: 2 * L + 3]
+                second = ops if rng.random() < 0.5 else [o for o in ops if o in ("H", "B")]
+                ops = ops[:cut] + ["reset"] + second[: 4 * L + 6]
             yield {"spec": spec, "ops": ops, "ref": ref}
 
     def run_impl(self, case):
@@ -741,10 +744,18 @@ class MethodRowsSuite:
         bobs = {(int(k) - 1) % L: v for k, v in ref["bobs"].items()} if spec["bob"] is not None else {(0 - 1) % L: [[1, 4]]}
         singles = {(int(k) - 1) % L: v for k, v in ref["singles"].items()} if spec["single"] is not None else {(0 - 1) % L: [[1, 2, 3, 4]]}
         hist = ["next" if o in ("H", "B") else o for o in case["ops"]]
-        if "reset" in hist:
-            return None
-        return reference_rows(spec["stage"], out["start_row"], ref["expanded"], bobs, singles,
-                              spec["start_index"], hist)
+        rows, seg = [], []
+        for h in hist + ["reset"]:
+            if h == "reset":            # every touch is read from the start row and start index
+                part = reference_rows(spec["stage"], out["start_row"], ref["expanded"], bobs, singles,
+                                      spec["start_index"], seg)
+                if part is None:
+                    return None
+                rows += part
+                seg = []
+            else:
+                seg.append(h)
+        return rows
 
     def oracle_C02(self, case, out):
         if "rows" not in out or any(o in ("bob", "single") for o in case["ops"]):
